@@ -23,7 +23,7 @@ import (
 )
 
 var st = stat.New("C12",
-	"Case = 1..3 scenarios run concurrently, scenario = {worker pool 0 or 1..4, queue capacity 1..64 or large, 1..4 raw client connections, per connection 0..10 pipelined requests whose handlers sleep 0..3000 ms, Shutdown(ctx) called 0..250 ms after the requests were written, ctx timeout 4..8 s, handle timeout 0 / 1 s / 2.5 s}. The obligated set is measured, not assumed: per connection the first (replies already received + the server's read-but-unanswered counter, read just before Shutdown through an overlay accessor) requests in FIFO order. Oracle: every obligated request is answered (matching id) before the connection is closed; every connection receives the reconnect notification (id 0, _reconnect_) and is then closed by the server; Shutdown returns within ctx timeout + 1 s; when it returned before its context expired every obligated request must have been answered and every connection notified and closed, and it must not have waited longer than last handler end + 2 s idle rule + 1.5 s (when it ran into its context, unanswered requests are legitimate). Non-trivial = pool > 0 with more accepted requests than workers at shutdown, or >= 2 handlers mid-flight at shutdown. Distinct = distinct case JSON.",
+	"Case = 1..3 scenarios run concurrently, scenario = {worker pool 0 or 1..4, queue capacity 1..64 or large, 1..4 raw client connections, per connection 0..10 pipelined requests whose handlers sleep 0..3000 ms, Shutdown(ctx) called 0..250 ms after the requests were written, ctx timeout 4..8 s, handle timeout 0 / 1 s / 2.5 s, write timeout 0 / 200 ms / 3 s}. The obligated set is measured, not assumed: per connection the first (replies already received + the server's read-but-unanswered counter, read just before Shutdown through an overlay accessor) requests in FIFO order. Oracle: every obligated request is answered (matching id) before the connection is closed; every connection receives the reconnect notification (id 0, _reconnect_) and is then closed by the server; Shutdown returns within ctx timeout + 1 s; when it returned before its context expired every obligated request must have been answered and every connection notified and closed, and it must not have waited longer than last handler end + 2 s idle rule + 1.5 s (when it ran into its context, unanswered requests are legitimate). Non-trivial = pool > 0 with more accepted requests than workers at shutdown, or >= 2 handlers mid-flight at shutdown. Distinct = distinct case JSON.",
 	"requests still in the socket buffer because the accept/queue path was blocked are not obligated (the property speaks of requests already read)",
 	"interleavings of accept loop, receive loops, handlers and the shutdown poller are sampled through generated handler durations and shutdown moments")
 
@@ -52,6 +52,8 @@ type Scenario struct {
 	// HandleTimeoutMs > 0: the adapter's handle timeout (a handler running longer is answered
 	// with a timeout reply, which is a reply)
 	HandleTimeoutMs int `json:"handle_timeout_ms,omitempty"`
+	// WriteTimeoutMs > 0: the adapter's <writetimeout> setting
+	WriteTimeoutMs int `json:"write_timeout_ms,omitempty"`
 }
 
 type Case struct {
@@ -64,9 +66,10 @@ func draw(rt *rapid.T) Case {
 	for i := 0; i < n; i++ {
 		s := Scenario{MaxInvoke: rapid.SampledFrom([]int32{0, 0, 1, 2, 4}).Draw(rt, "pool")}
 		s.QueueCap = rapid.SampledFrom([]int{1, 2, 8, 64, 10000}).Draw(rt, "queuecap")
-		s.ShutdownMs = rapid.SampledFrom([]int{0, 5, 20, 60, 120, 250}).Draw(rt, "shutdownAfter")
+		s.ShutdownMs = rapid.SampledFrom([]int{0, 5, 20, 60, 120, 250, 450}).Draw(rt, "shutdownAfter")
 		s.CtxTimeoutS = rapid.IntRange(4, 8).Draw(rt, "ctxTimeout")
 		s.HandleTimeoutMs = rapid.SampledFrom([]int{0, 0, 0, 1000, 2500}).Draw(rt, "handleTimeout")
+		s.WriteTimeoutMs = rapid.SampledFrom([]int{0, 0, 200, 3000}).Draw(rt, "writeTimeout")
 		nc := rapid.IntRange(1, 4).Draw(rt, "nconns")
 		for j := 0; j < nc; j++ {
 			cn := Conn{BigReply: -1}
@@ -130,7 +133,7 @@ func runScenario(si int, s Scenario) scenResult {
 	d := &sleeper{}
 	p := tars.VerifBindDefaultApp(tars.NewTarsProtocol(d, nil, false))
 	conf := &transport.TarsServerConf{Proto: "tcp", Address: "127.0.0.1:0", MaxInvoke: s.MaxInvoke, QueueCap: s.QueueCap,
-		AcceptTimeout: 500 * time.Millisecond, IdleTimeout: 600 * time.Second, TCPNoDelay: true, HandleTimeout: time.Duration(s.HandleTimeoutMs) * time.Millisecond,
+		AcceptTimeout: 500 * time.Millisecond, IdleTimeout: 600 * time.Second, TCPNoDelay: true, HandleTimeout: time.Duration(s.HandleTimeoutMs) * time.Millisecond, WriteTimeout: time.Duration(s.WriteTimeoutMs) * time.Millisecond,
 		TCPReadBuffer: 128 * 1024 * 1024, TCPWriteBuffer: 128 * 1024 * 1024} // the framework defaults (tars/setting.go)
 	srv := transport.NewTarsServer(p, conf)
 	if err := srv.Listen(); err != nil {
@@ -432,6 +435,12 @@ var pinnedCases = map[string]Case{
 	"client-stops-reading": {Scenarios: []Scenario{
 		{MaxInvoke: 0, QueueCap: 64, ShutdownMs: 120, CtxTimeoutS: 4, Conns: []Conn{{SleepMs: []int{0}, BigReply: 0, SlowReaderMs: stalledMs}, {SleepMs: []int{50, 50}, BigReply: -1}}},
 		{MaxInvoke: 2, QueueCap: 8, ShutdownMs: 60, CtxTimeoutS: 4, Conns: []Conn{{SleepMs: []int{0, 0}, BigReply: 1, SlowReaderMs: stalledMs}}},
+	}},
+	// a configured write timeout and connections whose last response is older than it when
+	// the shutdown begins: they still have to get the reconnect notification
+	"write-timeout-configured": {Scenarios: []Scenario{
+		{MaxInvoke: 0, QueueCap: 64, ShutdownMs: 450, CtxTimeoutS: 6, WriteTimeoutMs: 200, Conns: []Conn{{SleepMs: []int{0}, BigReply: -1}, {SleepMs: []int{0, 900}, BigReply: -1}}},
+		{MaxInvoke: 4, QueueCap: 64, ShutdownMs: 450, CtxTimeoutS: 6, WriteTimeoutMs: 200, Conns: []Conn{{SleepMs: []int{0, 0}, BigReply: -1}}},
 	}},
 	"deep-queue-with-handle-timeout": {Scenarios: []Scenario{
 		{MaxInvoke: 1, QueueCap: 64, ShutdownMs: 100, CtxTimeoutS: 8, HandleTimeoutMs: 1000, Conns: []Conn{{SleepMs: []int{600, 600, 600, 600, 600, 600}, BigReply: -1}}},
